@@ -654,7 +654,8 @@ impl<'a, W: Write> YamlSerializer<'a, W> {
             if !self.doc_started {
                 self.doc_started = true;
                 if self.yaml_12 {
-                    self.out.write_str("%YAML 1.2\n")?;
+                    // A directive must be followed by an explicit document start marker.
+                    self.out.write_str("%YAML 1.2\n---\n")?;
                     // Still at start of a line after the directive.
                     self.at_line_start = true;
                 }
